@@ -1,7 +1,9 @@
 (* Wp.v — a thread-local program logic for the rank discipline.
-   [wp p H K Qr Qt QF]: from any world in which the executing thread t holds exactly the locks H (with modes) and its
+   [wp bl p H K Qr Qt QF]: from any world in which the executing thread t holds exactly the locks H (with modes) and its
    key flag is K — whatever the other threads hold, and however they interleave — program p, run one operation at a
-   time, (i) attempts a blocking acquisition of l only while every lock in H has a lower rank than l, (ii) never
+   time, (i) attempts a blocking acquisition of l only while [bl H l] holds of the locks H in hand (C01: every lock in H
+   has a lower rank than l; C09: a retrying acquisition holds nothing outside l's own unit), reads user data only
+   under a hold and writes it only under the exclusive hold (C02), (ii) never
    aborts, never sets a kill flag, and (iii) ends returning v with holds H' and key flag K' such that Qr v H' K', or
    panicking with Qt H' K', or out of fuel with QF H' K'.  Faults are absent (no raw operation panics) and no kill
    flag is set: this is the setting of property C01.  The logic is a structural recursion over the program; its
@@ -72,11 +74,13 @@ Qed.
 
 Definition rop_ex (k : rop) : bool := match k with OLock | OTry | OUnlock => true | _ => false end.
 
-Section Logic.
-Variable nl : nat.
-Variable rk : lock -> nat.
+(* the condition of property C01: a blocking acquisition is requested above everything held *)
+Definition rank_ok (nl : nat) (rk : lock -> nat) (H : list hold) (l : lock) : Prop :=
+  l < nl /\ forall x, In x H -> rk (fst x) < rk l.
 
-Definition rank_ok (H : list hold) (l : lock) : Prop := l < nl /\ forall x, In x H -> rk (fst x) < rk l.
+Section Logic.
+(* what must hold of the locks in hand when a blocking acquisition of l is requested *)
+Variable bl : list hold -> lock -> Prop.
 
 Definition post := list hold -> bool -> Prop.
 
@@ -90,7 +94,7 @@ Fixpoint wp (p : prog) (H : list hold) (K : bool) (Qr : val -> post) (Qt QF : po
       match o with
       | ORaw r l =>
           match r with
-          | OLock | OLockSh => rank_ok H l /\ wp (k VUnit) ((l, rop_ex r) :: H) K Qr Qt QF
+          | OLock | OLockSh => bl H l /\ wp (k VUnit) ((l, rop_ex r) :: H) K Qr Qt QF
           | OTry | OTrySh => wp (k (VBool true)) ((l, rop_ex r) :: H) K Qr Qt QF /\ wp (k (VBool false)) H K Qr Qt QF
           | OUnlock | OUnlockSh => wp (k VUnit) (rem1 (l, rop_ex r) H) K Qr Qt QF
           end
@@ -373,7 +377,7 @@ Lemma wp_nextop p : forall H K Qr Qt QF,
   | NThrow => Qt H K
   | NAbort => False
   | NFuel => QF H K
-  | NOp (ORaw k l) => rop_blocking k = true -> rank_ok H l
+  | NOp (ORaw k l) => rop_blocking k = true -> bl H l
   | NOp (ORead _ l) => exists x, In (l, x) H
   | NOp (OWrite _ l) => In (l, true) H
   | NOp _ => True
